@@ -47,7 +47,18 @@ def _tet_delaunay():
     return v, gen.orient_tets_positive(v, np.array(t))
 
 
-MESHES = {"tet-delaunay": _tet_delaunay, "tri": _tri_closed, "tri-open": _tri_open, "tri-flat": _tri_flat, "tri-fine": _tri_fine, "tet": _tet}
+def _tri_grid():
+    v, t = gen.grid(4, 3)
+    return np.array(v, float), t
+
+
+def _tet_grid():
+    v, t = gen.cube_grid(2, 1, 1)
+    v = np.array(v, float)
+    return v, gen.orient_tets_positive(v, np.array(t))
+
+
+MESHES = {"tri-grid": _tri_grid, "tet-grid": _tet_grid, "tet-delaunay": _tet_delaunay, "tri": _tri_closed, "tri-open": _tri_open, "tri-flat": _tri_flat, "tri-fine": _tri_fine, "tet": _tet}
 
 
 def make(kind):
@@ -71,9 +82,27 @@ def movers(kind):
 
 def args(m):
     n, ne = len(m.v), len(m.t)
-    return dict(f=np.sin(np.arange(n)) + 0.13 * np.arange(n), g=np.cos(0.7 * np.arange(n)), X=np.cos(np.arange(3 * ne)).reshape(ne, 3), tf=np.cos(np.arange(ne)),
+    extra = {}
+    if isinstance(m, TriaMesh) and n <= 40:
+        try:
+            with core.quiet():
+                if not m.is_closed() and m.is_oriented() and m.is_manifold():
+                    extra["lm"], extra["tgt"] = _beltrami_args(m)
+        except Exception:  # noqa: BLE001
+            pass
+    return dict(extra, f=np.sin(np.arange(n)) + 0.13 * np.arange(n), g=np.cos(0.7 * np.arange(n)), X=np.cos(np.arange(3 * ne)).reshape(ne, 3), tf=np.cos(np.arange(ne)),
                 ev=np.array([1.0, 2.0, 3.5]), vids=[0, 3], didx=np.array([0, 5]), ddat=np.array([0.5, -1.0]), didx2=np.array([1, 4]), ddat2=np.array([-0.3, 0.8]),
                 nidx=np.array([2]), ndat=np.array([0.3]))
+
+
+def _beltrami_args(m):
+    """landmarks = first boundary loop (in walk order), targets = an affine image of their positions (float64, caller-owned)"""
+    lm = np.array(m.boundary_loops()[0], dtype=np.int64)
+    return lm, np.ascontiguousarray(m.v[lm][:, :2] * np.array([1.3, 0.8]) + np.array([0.25, -0.4]))
+
+
+def _lbs(m, A):
+    return conformal.linear_beltrami_solver(m, np.full(len(m.t), 0.1 + 0.05j), A["lm"], A["tgt"])
 
 
 def _ev(r):
@@ -89,6 +118,7 @@ API = {
     "C03": [("eigs eigenvalues", "tri", lambda m, A: _ev(Solver(m).eigs(4))), ("eigs eigenvalues (tet)", "tet", lambda m, A: _ev(Solver(m, lump=True).eigs(3)))],
     "C04": [("compute_shapedna", "tri", lambda m, A: shapedna.compute_shapedna(m, k=3)),
             ("compute_shapedna (tet)", "tet", lambda m, A: shapedna.compute_shapedna(m, k=2)),
+            ("compute_shapedna (tet, lumped)", "tet-delaunay", lambda m, A: shapedna.compute_shapedna(m, k=3, lump=True)["Eigenvalues"]),
             ("normalize_ev", "tri", lambda m, A: [shapedna.normalize_ev(m, A["ev"].copy(), meth) for meth in ("surface", "volume", "geometry")]),
             ("normalize_ev (tet)", "tet", lambda m, A: [shapedna.normalize_ev(m, A["ev"].copy(), meth) for meth in ("volume", "geometry")])],
     "C05": [("poisson", "tri-open", lambda m, A: Solver(m).poisson(A["f"], (A["didx"], A["ddat"]), (A["nidx"], A["ndat"]))),
@@ -105,8 +135,10 @@ API = {
     "C15": [("transfer / smoothing", "tri-open", lambda m, A: [m.map_tfunc_to_vfunc(A["tf"], True), m.map_vfunc_to_tfunc(A["f"]), m.smooth_vfunc(A["f"], 3)])],
     "C16": [("level_length / level_path", "tri-flat", lambda m, A: [m.level_length(A["g"], 0.123), m.level_length(m.v[:, 0], float(np.median(m.v[:, 0])) + 1e-3)])],
     "C17": [("curvature", "tri", lambda m, A: list(m.curvature(2))[2:6]), ("curvature_tria", "tri", lambda m, A: list(m.curvature_tria(2))[2:])],
-    "C18": [("spherical_conformal_map", "tri-fine", lambda m, A: conformal.spherical_conformal_map(m))],
-    "C19": [("tria_mean_curvature_flow", "tri", lambda m, A: diffgeo.tria_mean_curvature_flow(m, max_iter=3).v),
+    "C18": [("spherical_conformal_map", "tri-fine", lambda m, A: conformal.spherical_conformal_map(m)),
+            ("linear_beltrami_solver", "tri-grid", _lbs),
+            ("beltrami_coefficient", "tri-grid", lambda m, A: conformal.beltrami_coefficient(m, np.column_stack([1.2 * m.v[:, 0] + 0.3 * m.v[:, 1], 0.9 * m.v[:, 1], 0 * m.v[:, 0]])))],
+    "C19": [("tria_mean_curvature_flow", "tri", lambda m, A: diffgeo.tria_mean_curvature_flow(m, max_iter=3)),
             ("tria_spherical_project", "tri-fine", lambda m, A: diffgeo.tria_spherical_project(m, flow_iter=2).v)],
 }
 
@@ -218,6 +250,23 @@ def purity(prop, stats=None):
             if bad:
                 fails.append(core.Failure("correspondence", "purity: " + name, "%s wrote into the caller's `%s`" % (name, bad[0]), dict(kind="reuse", prop=prop, name=name, what="purity")))
                 break
+            if isinstance(first, (TriaMesh, TetMesh)) and first is not m:
+                # a mesh handed back is an object of its own: whatever is done to it in place leaves the argument as it was, and vice versa
+                bad = None
+                for who, target, other in (("the returned mesh", first, m), ("the argument", m, first)):
+                    so = _state(other)
+                    for mname, mut in mutators(kind) + [("normalize_()", lambda x: x.normalize_())] * (kind.startswith("tri")):
+                        if core.call(mut, target)[0] == "ok" and _state_diff(so, other):
+                            bad = "%s on %s changed `%s` of the other mesh" % (mname, who, _state_diff(so, other))
+                            break
+                    if bad:
+                        break
+                if stats is not None:
+                    stats.monitor("meshes handed back checked for independence from the argument")
+                if bad:
+                    fails.append(core.Failure("correspondence", "purity: " + name, "%s (%s mesh): %s" % (name, variant, bad), dict(kind="reuse", prop=prop, name=name, what="purity")))
+                    break
+                continue
             if first is not None and variant == "as-is":
                 # a result handed out earlier must not change when the function is used again on something else
                 snap = copy.deepcopy(first)
@@ -280,6 +329,8 @@ def check(prop, stats=None, quick=True):
     fails += solver_state(prop, stats)
     fails += histories(prop, stats, quick)
     fails += presentations(prop, stats, quick)
+    fails += solver_aliasing(prop, stats)
+    fails += permutations(prop, stats, quick)
     tolp = 1e-6 if prop in ("C03", "C04", "C18", "C19", "C08") else 1e-9
     for k, (name, kind, fn) in enumerate(API.get(prop, [])):
       for mname, move in movers(kind):          # every in-place change (similarities alone would hide scale-invariant caches)
@@ -542,6 +593,106 @@ def solver_state(prop, stats=None):
                 fails.append(core.Failure("correspondence", "Solver state: " + oname, "after %s (%s mesh, lump=%s) the stiffness / mass matrix exposed by the Solver "
                                           "is no longer the one assembled from its mesh: %s" % (oname, kind, lump, r), dict(kind="reuse", prop=prop, name=oname, what="solver-state")))
                 break
+    return fails
+
+
+def solver_aliasing(prop, stats=None):
+    """the matrices a Solver exposes are independent objects: compacting / sorting / scaling one of them in place (public scipy methods on a
+    public attribute) leaves the other exactly as it was.  Meshes with right angles are used: their stiffness matrices store exact zeros."""
+    fails = []
+    if prop not in ("C01", "C02", "C20"):
+        return fails
+    ops = [("eliminate_zeros()", lambda a: a.eliminate_zeros()), ("sort_indices()", lambda a: a.sort_indices()), ("data *= 2", lambda a: a.data.__imul__(2.0)),
+           ("sum_duplicates()", lambda a: a.sum_duplicates())]
+    for kind in ("tri-grid", "tet-grid", "tri"):
+        for lump in (False, True):
+            for which in ("stiffness", "mass"):
+                for oname, op in ops:
+                    try:
+                        with core.quiet():
+                            s = Solver(make(kind), lump=lump)
+                            touched, other = (s.stiffness, s.mass) if which == "stiffness" else (s.mass, s.stiffness)
+                            ref = other.copy()
+                            ref_dense = other.toarray().copy()
+                            op(touched)
+                            now = getattr(s, "mass" if which == "stiffness" else "stiffness")
+                            same = now.shape == ref.shape and np.array_equal(now.toarray(), ref_dense)
+                    except Exception:  # noqa: BLE001
+                        continue
+                    if stats is not None:
+                        stats.monitor("Solver matrices checked for independence of each other")
+                    if not same:
+                        fails.append(core.Failure("correspondence", "Solver aliasing: " + which, "after %s.%s on a Solver(%s mesh, lump=%s) the %s matrix is no longer the one assembled "
+                                                  "from the mesh" % (which, oname, kind, lump, "mass" if which == "stiffness" else "stiffness"),
+                                                  dict(kind="reuse", prop=prop, name=which, what="solver-aliasing")))
+                        return fails
+    return fails
+
+
+def permutations(prop, stats=None, quick=True):
+    """the order in which the elements are listed is immaterial: per-vertex and global results are unchanged, per-element results are permuted
+    alike (results are classified by their leading dimension; meshes have different numbers of vertices and elements)"""
+    fails = []
+    if prop not in ("C01", "C02", "C03", "C04", "C05", "C06", "C07", "C08", "C13", "C15", "C16", "C17", "C19"):
+        return fails
+
+    def conv(x, nv, ne, perm):
+        if isinstance(x, (TriaMesh, TetMesh)):
+            return np.asarray(x.v)
+        if sp.issparse(x):
+            return x
+        if isinstance(x, dict):
+            return {k: conv(v, nv, ne, perm) for k, v in x.items() if k != "Eigenvectors"}
+        if isinstance(x, (list, tuple)):
+            return [conv(y, nv, ne, perm) for y in x]
+        a = np.asarray(x)
+        if a.ndim >= 1 and a.shape[0] == ne and ne != nv and perm is not None:
+            return a[perm]
+        return x
+
+    for name, kind, fn in API.get(prop, []):
+        if quick and name in ("spherical_conformal_map", "tria_spherical_project"):
+            continue
+        for variant in ("open-first" if kind in ("tri", "tri-fine") else "as-is",):
+            with core.quiet():
+                m0 = make(kind)
+            v0, t0 = np.array(m0.v), np.array(m0.t)
+            if kind == "tri":              # an open curved surface as well: drop two triangles of the closed one
+                t0 = t0[2:]
+                used = np.unique(t0)
+                if len(used) != len(v0):
+                    continue
+            ne, nv = len(t0), len(v0)
+            if ne == nv:
+                continue
+            rng = gen.rng_for(0, "reuse-perm", name)
+            for pname, perm in (("reversed element order", np.arange(ne)[::-1]), ("random element order", rng.permutation(ne))):
+                try:
+                    with core.quiet():
+                        ma = TetMesh(v0.copy(), t0.copy()) if kind.startswith("tet") else TriaMesh(v0.copy(), t0.copy())
+                        mb = TetMesh(v0.copy(), t0[perm].copy()) if kind.startswith("tet") else TriaMesh(v0.copy(), t0[perm].copy())
+                except Exception:  # noqa: BLE001
+                    continue
+                Aa, Ab = args(ma), args(mb)
+                for k2 in ("X", "tf"):               # per-element arguments follow their elements
+                    Ab[k2] = Aa[k2][perm]
+                ra, rb = _call(fn, ma, Aa), _call(fn, mb, Ab)
+                if "skip" in (ra[0], rb[0]):
+                    continue
+                if stats is not None:
+                    stats.monitor("results compared under permutation of the element list")
+                if ra[0] != rb[0]:
+                    r = "outcomes differ: %s / %s" % (ra[:2], rb[:2])
+                elif ra[0] == "ok":
+                    # (anisotropic matrices are stored in single precision: a different summation order shows at 1e-7)
+                    r = _cmp(conv(rb[1], nv, ne, None), conv(ra[1], nv, ne, perm),
+                             1e-4 if "aniso" in name else 1e-6 if prop in ("C03", "C04", "C18", "C19", "C08", "C17") else 1e-9)
+                else:
+                    r = None
+                if r:
+                    fails.append(core.Failure("correspondence", "element order: " + name, "%s with the elements listed in %s differs from the result for the original "
+                                              "order (per-element results permuted alike): %s" % (name, pname, r), dict(kind="reuse", prop=prop, name=name, what="permutation")))
+                    break
     return fails
 
 
